@@ -9,12 +9,12 @@ EXTENDS Repository, IOUtils, TLCExt
 Traces == JsonDeserialize(IOEnv.TRACE_FILE)
 
 VARIABLES tid, l
-tvars == <<store, hist, tid, l>>
+tvars == <<store, hist, probe, tid, l>>
 
 Ev == Traces[tid][l]
 Rng(sq) == {sq[i] : i \in 1..Len(sq)}
 PostOK == Abs(store') = {<<p[1], p[2]>> : p \in Rng(Ev.post)}
-Step == l <= Len(Traces[tid]) /\ l' = l + 1 /\ UNCHANGED tid
+Step == l <= Len(Traces[tid]) /\ l' = l + 1 /\ UNCHANGED <<tid, probe>>
 
 TraceInit == tid \in 1..Len(Traces) /\ l = 1 /\ Init
 
